@@ -382,6 +382,11 @@ def is_F39(c, im, clause):
     if not d or d[1] or not d[0]:
         return False
     added_mand = {a[0][1].split(".")[0]: a[0][0] for a in im.get("adds", []) if a[1] is None and a[2][0] == "added"}
+    if c.get("oracle_only") and (c.get("flags") or {}).get("add_mandatory", True):
+        # no capture in the oracle-only streams: the mandatory names of the database text that the first output binds
+        from . import c04_db as D
+        first = {n.split(".")[0] for n, f, fut in top_imports(im["out"])}
+        added_mand = {n: None for n in D.effective(c.get("db", ""))[1] if n in first}
     for n, f, fut in d[0]:
         root = n.split(".")[0]
         if root not in added_mand:
@@ -509,7 +514,7 @@ def check_cases(ctx, cases):
 
 
 def run(ctx):
-    n = int(os.environ.get("VERIF_N", 600 if ctx.quick else 20000))
+    n = int(os.environ.get("VERIF_N", 600 if ctx.quick else 15000))
     ctx.coverage["rule"] = ("layout-rich generated modules (docstring/comment prologues, `;` joins, trailing comments, imports after code, "
                             "imports sharing a line with other statements, prologue-only files, missing final newline, very long dotted "
                             "names) x 7 databases (unique / ambiguous / absent / dotted / alias entries, one or two mandatory imports incl. "
